@@ -20,7 +20,9 @@ import random
 import re
 import vf
 
-FLAGS = ["Dev_AdoptAckVerbatim", "Dev_ServerIgnoresHello", "Dev_NoSendLimit", "Dev_ServerZeroIsLimit"]
+SECURED = [("Basic256Sha256", "Sign"), ("Basic256Sha256", "SignAndEncrypt"), ("Basic128Rsa15", "Sign"),
+           ("Aes128_Sha256_RsaOaep", "SignAndEncrypt"), ("Aes256_Sha256_RsaPss", "Sign")]
+FLAGS = ["Dev_AdoptAckVerbatim", "Dev_ServerIgnoresHello", "Dev_NoSendLimit", "Dev_ServerZeroIsLimit"]  # Dev_AbortLeaksChunks: demo only
 KEYS = {
     "fits:c2s": ("client-chunk-exceeds-server-receive-buffer",
                  "the client sent a chunk larger than the receive buffer in the server's Acknowledge"),
@@ -72,7 +74,7 @@ def body(run):
                         label="rows: configuration pairs with the message sizes around their limits"),
         lambda: exe.__setitem__(0, run.go_build("negotiate")),
     ]
-    for d in ["adopt", "ignore", "nosend", "zero"]:
+    for d in (["adopt", "abort"] if q else ["adopt", "ignore", "nosend", "zero", "abort"]):
         jobs.append(lambda d=d: run.tlc(F, M, M + "_dev_%s.cfg" % d, expect="violation", count=False,
                                         label="deviation demo %s must violate an invariant" % d))
     res = run.parallel(*jobs)
@@ -112,14 +114,31 @@ def body(run):
         quota = max(1, (n // 8) if gk[2] else (n // 40))
         g = groups[gk]
         pick += rnd.sample(g, min(quota, len(g)))
+    sym = [s for s in scen if len({s["ccfg"]["rb"], s["ccfg"]["sb"], s["scfg"]["rb"], s["scfg"]["sb"]}) == 1
+           and kind(s)[1] == "mc" and s["scfg"]["mm"] != 0]
+    pick += rnd.sample(sym, min(n // 8, len(sym)))   # messages of exactly the chunk count limit, preceded by aborts
     for i, s in enumerate(pick):
         s = dict(s)
         s["id"] = i + 1
         s["decoy"] = rnd.random() < 0.5    # a second connection from the same client Acknowledge object
         s["sdecoy"] = rnd.random() < 0.5   # a second client (8192/8192) on the same uacp.Listener
+        k = kind(s)
+        multi = s["len"] > 8192            # at least two chunks for the smallest buffer
+        # aborted helper messages are large: they need a connection on which large messages pass in
+        # both worlds (contract and as-is), i.e. one buffer size on all four sides
+        same = len({s["ccfg"]["rb"], s["ccfg"]["sb"], s["scfg"]["rb"], s["scfg"]["sb"]}) == 1
+        if same and (k[1] == "mc" or (multi and rnd.random() < 0.3)):
+            # messages given up after 1-2 intermediate chunks and aborted, then the message under test
+            # (for kind "mc": a message of exactly the negotiated chunk count)
+            s["aborts"] = rnd.choice([[1], [1, 1], [2], [1, 1, 1], [2, 1]])
+        elif s["len"] != 100 and rnd.random() < 0.45:
+            # the same scenario on a signed / encrypted channel: chunk sizes as written under security
+            s["policy"], s["mode"] = SECURED[(i + run.seed) % len(SECURED)]
         pick[i] = s
     run.log("TLC: %d states; %d of %d scenarios sampled" % (run.cov["states"], len(pick), len(scen)))
     results = run.go_run(exe[0], ["-workers", "12"], cases=pick, timeout=2400)
+    run.save_text("undriven-seed%d-%s.ndjson" % (run.seed, run.tier),
+                  "".join(json.dumps(r) + "\n" for r in results if r.get("status") != "ok"))
     traces = {}
     for r in results:
         if r.get("status") == "ok" and r.get("obs"):
@@ -234,7 +253,11 @@ def body(run):
                        "limits +-1 computed by TLC; class = configuration pair x direction; each trace carries the "
                        "handshake and 1-2 messages with their chunk sizes from the wire")
     run.assumptions += [
-        "policy None (24 bytes of a chunk are not message body); OpenSecureChannel is recorded only when it fails",
+        "about a third of the multi-chunk scenarios run on Sign / SignAndEncrypt channels (5 policy/mode pairs): there the "
+        "chunk sizes are the ones written under security and the message size is the plain encoded size; "
+        "OpenSecureChannel is recorded only when it fails",
+        "aborted partial messages are produced under policy None by the frame proxy, which turns a chunk of a real "
+        "message into the MSGA chunk and drops the rest",
         "receive results are classified ok / chunk-too-large / too-many-chunks / message-too-large / other error by "
         "error text; 'other error' is accepted for any non-ok verdict of the specification",
         "a refused over-limit message is recognised by: send call returned an error and no chunk reached the wire",
